@@ -31,3 +31,24 @@ Proof.
   exists [(B "atele", 5); (B "atele", 7)], {| pool := [(B "atele", 100)]; fee := []; others := []; supply := [] |}.
   eexists. split; [reflexivity|]. split; [reflexivity|]. vm_compute. reflexivity.
 Qed.
+
+(** The hypothesis [code_op_known] of C20_world_step / C20_world_history (parameter changes name a registered
+    key) is necessary: cosmos-sdk's Subspace.Update panics on an unregistered key, and the params proposal
+    handler runs in gov's EndBlocker without recover.  SDK behaviour, not x/rvesting's; replayed on the real
+    handler by the harness (world corpus case -6; outcome class 2). *)
+From Teleport Require Import Model.RvestingIR Model.RvestingBank Model.RvestingParams Model.RvestingWorld Model.RvestingCode
+  Model.RvestingWorldCheck.
+
+Theorem C20_unregistered_key_refuted :
+  exists w k v, code_get_params (w_ps w) = Ok code_default_params /\ code_step (WParam k v) w = Panic.
+Proof.
+  exists {| w_accts := []; w_sup := []; w_ps := match default_store with Ok s => s | _ => [] end; w_height := 1 |},
+         (B "Bogus"), (JBool true).
+  split; vm_compute; reflexivity.
+Qed.
+
+(** Without the nil-amount guard BEFORE the sign test (the order of the pre-fix code: IsNegative first), the
+    validation function itself panics on an absent amount: the condition [nil_safe] of [guards_std] is needed. *)
+Theorem C20_nil_amount_guard_order_refuted :
+  exists l, validate_raw [LTypeCoins; LEmpty] [GEmptyDenom; GNegative; GNilAmount] l = Panic.
+Proof. exists [(B "atele", None)]. reflexivity. Qed.
